@@ -51,11 +51,15 @@ type Result struct {
 	Trace      []string       `json:"trace,omitempty"`
 	Checks     int            `json:"checks"` // number of oracle comparisons performed
 	Cover      []string       `json:"cover,omitempty"`
+	SigSuffix  string         `json:"-"`
 }
 
 func (r *Result) Violate(sig, format string, args ...any) {
 	r.Verdict = "violation"
 	d := fmt.Sprintf(format, args...)
+	if r.SigSuffix != "" {
+		sig += ":" + r.SigSuffix
+	}
 	if len(d) > 1500 {
 		d = d[:1500] + "..."
 	}
